@@ -46,6 +46,9 @@ var props = map[string]propCfg{
 	"C16": {Level: "exploration",
 		Quick:    tierCfg{Checks: 96000, Shards: 16, Guard: 10 * time.Minute},
 		Thorough: tierCfg{Checks: 1600000, Shards: 16, Guard: 90 * time.Minute}},
+	"C17": {Level: "exploration", DeathIsViolation: true,
+		Quick:    tierCfg{Checks: 1600, Shards: 16, Guard: 15 * time.Minute},
+		Thorough: tierCfg{Checks: 64000, Shards: 16, Guard: 120 * time.Minute}},
 	"C18": {Level: "exploration",
 		Quick:    tierCfg{Checks: 48000, Shards: 16, Guard: 10 * time.Minute},
 		Thorough: tierCfg{Checks: 1600000, Shards: 16, Guard: 60 * time.Minute}},
@@ -76,6 +79,9 @@ var props = map[string]propCfg{
 	"C10": {Level: "exploration", DeathIsViolation: true,
 		Quick:    tierCfg{Checks: 1200, Shards: 16, Guard: 15 * time.Minute},
 		Thorough: tierCfg{Checks: 48000, Shards: 16, Guard: 120 * time.Minute}},
+	"C11": {Level: "exploration", DeathIsViolation: true,
+		Quick:    tierCfg{Checks: 1600, Shards: 16, Guard: 15 * time.Minute},
+		Thorough: tierCfg{Checks: 64000, Shards: 16, Guard: 120 * time.Minute}},
 	"C12": {Level: "exploration",
 		Quick:    tierCfg{Checks: 3200, Shards: 16, Guard: 10 * time.Minute},
 		Thorough: tierCfg{Checks: 64000, Shards: 16, Guard: 90 * time.Minute}},
@@ -493,11 +499,10 @@ func check(id, tier string) int {
 		}
 	}
 
-	sampleVals := []interface{}{}
+	sampleVals := []json.RawMessage{} // kept verbatim (64-bit integers would not survive a float round trip)
 	for _, sm := range merged.Samples {
-		var v interface{}
-		if json.Unmarshal(sm, &v) == nil {
-			sampleVals = append(sampleVals, v)
+		if json.Valid(sm) {
+			sampleVals = append(sampleVals, sm)
 		}
 	}
 	meta := readMeta(bin, id)
